@@ -23,7 +23,7 @@ def shards(tier):
 
 
 def required_classes(tier):
-    return ["extract", "expand", "expand:L=0", "expand:L=8160", "keygen", "keygen:retry(W5)", "keygen:determinism"]
+    return ["soak:distinct-keys", "mutable-buffer-reused", "extract", "expand", "expand:L=0", "expand:L=8160", "keygen", "keygen:retry(W5)", "keygen:determinism"]
 
 
 LEN_Q = [0, 1, 31, 32, 33, 63, 64, 65, 127, 128, 129, 300]
@@ -123,6 +123,41 @@ def run(rec):
         prk, info, L = rng.randbytes(32), rng.randbytes(il), rng.choice([1, 42, 48, 82, 300])
         rec.case("expand", ("exp", prk, info, L))
         call(hm.hkdf_expand, bytearray(prk), bytearray(info), L)
+    # the SAME mutable buffer object passed again after its contents were changed in place (a memo keyed by object identity, or
+    # comparing a stored reference with itself, would answer for the old contents), and a fresh bytes copy right afterwards
+    for rep in range(4 if quick else 40):
+        i += 1
+        if not rec.mine(i):
+            continue
+        n = rng.choice([16, 32, 33, 64])
+        buf = bytearray(rng.randbytes(n))
+        ikm = rng.randbytes(rng.choice([0, 32, 48]))
+        info = bytearray(rng.randbytes(8))
+        rec.case("mutable-buffer-reused", ("mut", bytes(buf), ikm), sample={"fn": "hkdf_extract / hkdf_expand", "what": "bytearray key changed in place between consecutive calls"})
+        for step in range(3):
+            call(hm.hkdf_extract, buf, ikm)
+            call(hm.hkdf_expand, buf, info, 42)
+            call(hm.hkdf_expand, bytes(buf), bytes(info), 42)
+            buf[rng.randrange(len(buf))] ^= 0xFF              # in place
+            info[0] = (info[0] + 1) % 256
+            call(hm.hkdf_extract, buf, ikm)
+            call(hm.hkdf_extract, bytes(buf), ikm)
+            call(hm.hkdf_expand, buf, info, 42)
+    # soak: distinct keys through extract / expand, first ones re-probed
+    if rec.shard == 0 or not quick:
+        from .common import soak_size, soak_then_reprobe
+        k0 = [rng.randbytes(32) for _ in range(3)]
+
+        def distinct_keys():
+            j = 0
+            while True:
+                j += 1
+                kk = j.to_bytes(4, "big") * 8
+                yield (lambda kk=kk: (call(hm.hkdf_extract, kk, b"ikm"), call(hm.hkdf_expand, kk, b"info", 33)))
+        soak_then_reprobe(rec, "distinct-keys", [lambda kk=kk: (call(hm.hkdf_extract, kk, b"ikm"), call(hm.hkdf_expand, kk, b"info", 33), call(hm.hkdf_extract, bytearray(kk), b"ikm")) for kk in k0],
+                          distinct_keys(), soak_size(["py_ecc.bls.hash", "py_ecc.bls.ciphersuites"]))
+    else:
+        rec.case("soak:distinct-keys", None, nontrivial=False)
     # KeyGen
     ikm_lens = [0, 1, 31, 32, 33, 64, 128] if quick else list(range(0, 129))
     info_lens = [0, 1, 32, 64] if quick else list(range(0, 65))
